@@ -14,7 +14,7 @@
 
 use std::str::FromStr;
 
-use anyhow::{bail, Error};
+use anyhow::{bail, format_err, Error};
 
 use crate::bdl::BdlBlock;
 
@@ -655,7 +655,7 @@ fn build_heat_source(source_id: &str, block: &BdlBlock) -> Result<HeatSource, Er
             } else {
                 block.attrs.get_str("HW-LOOP")
             }
-            .expect("No se encuentra circuito de agua en sistema");
+            .map_err(|_| format_err!("No se encuentra circuito de agua en sistema: {}", block.name))?;
             // let hw_coil_q = block.attrs.get_f32("C-C-HW-COIL-Q").ok();
             Ok(HotWaterLoop {
                 heating_cap,
@@ -668,7 +668,7 @@ fn build_heat_source(source_id: &str, block: &BdlBlock) -> Result<HeatSource, Er
                 .attrs
                 .get_str("DHW-LOOP")
                 .or_else(|_| block.attrs.get_str("HW-LOOP"))
-                .expect("No se encuentra circuito de acs en sistema");
+                .map_err(|_| format_err!("No se encuentra circuito de acs en sistema: {}", block.name))?;
             // let hw_coil_q = block.attrs.get_f32("C-C-HW-COIL-Q").ok();
             Ok(DhwLoop {
                 heating_cap,
@@ -681,7 +681,7 @@ fn build_heat_source(source_id: &str, block: &BdlBlock) -> Result<HeatSource, Er
             let cop = block
                 .attrs
                 .get_f32("C-C-COP")
-                .expect("Rendimiento COP no localizado para bomba de calor");
+                .map_err(|_| format_err!("Rendimiento COP no localizado para bomba de calor: {}", block.name))?;
             Ok(HeatPump {
                 heating_cap,
                 cooling_cap,
@@ -695,7 +695,7 @@ fn build_heat_source(source_id: &str, block: &BdlBlock) -> Result<HeatSource, Er
             let cop = block
                 .attrs
                 .get_f32("C-C-COP")
-                .expect("Rendimiento COP no localizado para bomba de calor a gas");
+                .map_err(|_| format_err!("Rendimiento COP no localizado para bomba de calor a gas: {}", block.name))?;
             Ok(GasHeatPump {
                 heating_cap,
                 cooling_cap,
